@@ -263,14 +263,52 @@ end wigner
 def wignerD (j2 : Nat) (cb sb : Float) (i k : Nat) : Float :=
   wignerDG (fun n => Float.sqrt n.toFloat) Nat.toFloat j2 cb sb i k
 
-/-- `get_su2_irrep(j2, α, β, γ)`: `exp(-i M α) d_{MN}(β) exp(-i N γ)`. -/
-def su2Irrep (j2 : Nat) (al be ga : Float) (i k : Nat) : Cx Float :=
-  let mI : Float := (j2 - i : Nat).toFloat - j2.toFloat / 2
-  let mK : Float := (j2 - k : Nat).toFloat - j2.toFloat / 2
-  let d := if j2 = 0 then 1 else wignerD j2 (Float.cos (be / 2)) (Float.sin (be / 2)) i k
-  let e1 : Cx Float := ⟨Float.cos (mI * al), -Float.sin (mI * al)⟩
-  let e2 : Cx Float := ⟨Float.cos (mK * ga), -Float.sin (mK * ga)⟩
+/-- `get_su2_irrep(j2, α, β, γ)` with its literal phases (`_lie.py:264-267`): `exp(-i M α) · d_{MN}(β) · exp(-i N γ)`,
+`M = (j2-i) - j2/2`, `N = (j2-k) - j2/2` (`tmp0 = arange(j2+1)[::-1] - j2/2`); scalar-generic over `Trig`. -/
+def su2IrrepG {α : Type} [Add α] [Sub α] [Mul α] [Neg α] [Div α] [Zero α] [One α] [Trig α]
+    (sq ofNat : Nat → α) (half : α) (j2 : Nat) (al be ga : α) (i k : Nat) : Cx α :=
+  let mI : α := ofNat (j2 - i) - half * ofNat j2
+  let mK : α := ofNat (j2 - k) - half * ofNat j2
+  let d := wignerDG sq ofNat j2 (Trig.cos (half * be)) (Trig.sin (half * be)) i k
+  let e1 : Cx α := ⟨Trig.cos (mI * al), -Trig.sin (mI * al)⟩
+  let e2 : Cx α := ⟨Trig.cos (mK * ga), -Trig.sin (mK * ga)⟩
   e1 * Cx.smul d e2
+
+/-- the Float instance run by the driver (op `irrep`) -/
+def su2Irrep (j2 : Nat) (al be ga : Float) (i k : Nat) : Cx Float :=
+  su2IrrepG (fun n => Float.sqrt n.toFloat) Nat.toFloat 0.5 j2 al be ga i k
+
+/-! ### Clebsch–Gordan coefficients, exact (`_clebsch_gordan.py:32-47` obtains them from sympy)
+
+Racah's closed formula with doubled quantum numbers; the coefficient is `sgn·√sq` with `sq` rational:
+`C = √[(2j+1)(j+j1-j2)!(j-j1+j2)!(j1+j2-j)!/(j1+j2+j+1)!] · √[(j+m)!(j-m)!(j1-m1)!(j1+m1)!(j2-m2)!(j2+m2)!] · S`,
+`S = Σ_k (-1)^k / (k!(j1+j2-j-k)!(j1-m1-k)!(j2+m2-k)!(j-j2+m1+k)!(j-j1-m2+k)!)`. -/
+
+/-- `(x/2)!` for an even non-negative integer `x` (0 otherwise; callers guard) -/
+def factHalf (x : Int) : Nat := if x < 0 then 0 else factN (x.toNat / 2)
+
+/-- `(sign, square)` of `⟨j1 m1; j2 m2 | j m⟩`, all arguments doubled -/
+def cgSq (j1 j2 j m1 m2 m : Int) : Int × Rat :=
+  if m ≠ m1 + m2 ∨ j > j1 + j2 ∨ j < (j1 - j2) ∨ j < (j2 - j1) ∨ (j1 + j2 + j) % 2 ≠ 0
+      ∨ m1 > j1 ∨ m1 < -j1 ∨ m2 > j2 ∨ m2 < -j2 ∨ m > j ∨ m < -j then (0, 0)
+  else
+    let A : Rat := ((j + 1 : Int) : Rat) * (factHalf (j + j1 - j2) : Rat) * (factHalf (j - j1 + j2) : Rat) * (factHalf (j1 + j2 - j) : Rat)
+        / (factHalf (j1 + j2 + j + 2) : Rat)
+    let B : Rat := (factHalf (j + m) : Rat) * (factHalf (j - m) : Rat) * (factHalf (j1 - m1) : Rat) * (factHalf (j1 + m1) : Rat)
+        * (factHalf (j2 - m2) : Rat) * (factHalf (j2 + m2) : Rat)
+    let kmax := ((j1 + j2 - j) / 2).toNat
+    let S : Rat := (List.range (kmax + 1)).foldl (fun acc (k : Nat) =>
+      let kk : Int := 2 * (k : Int)
+      let args := [kk, j1 + j2 - j - kk, j1 - m1 - kk, j2 + m2 - kk, j - j2 + m1 + kk, j - j1 - m2 + kk]
+      if args.any (· < 0) then acc
+      else acc + (if k % 2 = 0 then (1 : Rat) else -1) / ((args.map fun x => (factHalf x : Rat)).foldl (· * ·) 1)) 0
+    (if S > 0 then 1 else if S < 0 then -1 else 0, A * B * S * S)
+
+/-- the table of `get_clebsch_gordan_coeffient(j1_double, j2_double)` for one `j_double`, flattened in the order
+`coeff[j_double-n, j1_double-n1, j2_double-n2] = CG(j1, -j1+n1; j2, -j2+n2 | j, -j+n)` -/
+def cgTable (j1 j2 j : Nat) : List (Int × Rat) :=
+  (List.range (j + 1)).flatMap fun (r : Nat) => (List.range (j1 + 1)).flatMap fun (s : Nat) => (List.range (j2 + 1)).map fun (t : Nat) =>
+    cgSq j1 j2 j ((j1 : Int) - 2 * (s : Int)) ((j2 : Int) - 2 * (t : Int)) ((j : Int) - 2 * (r : Int))
 
 /-- `get_rational_orthogonal2_matrix` (`_lie.py:287-293`) over the rationals: `[[ct, st], [-st, ct]]`. -/
 def rationalOrthogonal2 (m n : Int) : List Rat :=
